@@ -78,10 +78,42 @@ def extract_shifts(ctx, f, rule):
             k = st.targets[0].slice.value
             v = st.value
             coef = None
-            if isinstance(v, ast.BinOp) and isinstance(v.op, (ast.Add, ast.Sub)) and U(v.left) == f"{state}['{k}']" and U(v.right) == mean_var:
+            from ..astq import local_defs as _ld
+            _defs = _ld(f.node)
+
+            def is_var(e):  # state['k'] itself, or a local bound once to it
+                if U(e) == f"{state}['{k}']":
+                    return True
+                ds = _defs.get(e.id, []) if isinstance(e, ast.Name) else []
+                return len(ds) == 1 and ds[0] is not None and U(ds[0]) == f"{state}['{k}']"
+
+            def shift_of(e):
+                """(is the shift m, cast applied to it) - a cast to the type of the compensated variable narrows for an integer-typed variable"""
+                cast = None
+                while isinstance(e, ast.Call) and isinstance(e.func, ast.Attribute) and e.func.attr in ("to", "type_as", "type", "float", "double", "clone", "detach", "cpu"):
+                    if e.func.attr in ("to", "type_as", "type") and (e.args or e.keywords):
+                        cast = e
+                    e = e.func.value
+                return U(e) == mean_var, cast
+            if isinstance(v, ast.BinOp) and isinstance(v.op, (ast.Add, ast.Sub)) and is_var(v.left) and shift_of(v.right)[0]:
                 coef = 1 if isinstance(v.op, ast.Add) else -1
-            elif isinstance(v, ast.BinOp) and isinstance(v.op, ast.Add) and U(v.right) == f"{state}['{k}']" and U(v.left) == mean_var:
+                cast_ = shift_of(v.right)[1]
+            elif isinstance(v, ast.BinOp) and isinstance(v.op, ast.Add) and is_var(v.right) and shift_of(v.left)[0]:
                 coef = 1
+                cast_ = shift_of(v.left)[1]
+            else:
+                cast_ = None
+            if coef is not None and cast_ is not None:
+                targ = U(cast_.args[0]) if cast_.args else U(cast_.keywords[0].value)
+                arg0 = cast_.args[0] if cast_.args else cast_.keywords[0].value
+                names_k = {f"{state}['{k}']"} | {n_ for n_, ds in _defs.items() if len(ds) == 1 and ds[0] is not None and U(ds[0]) == f"{state}['{k}']"}
+                if any(nk in targ for nk in names_k):
+                    ctx.violation(rule, f, st, f"the shift is cast to the type of `{k}` (`{U(cast_)[:50]}`) before it is added: for an integer-typed `{k}` (a model file with whole numbers) it is truncated, "
+                                  f"so `{k}` does not follow the re-centring of xi and the trajectory / likelihood changes", construct=f"shift of {k} not narrowed")
+                elif isinstance(arg0, ast.Attribute) and U(arg0) in ("torch.float32", "torch.float64", "torch.float", "torch.double"):
+                    pass
+                else:
+                    ctx.unknown(rule, f, st, f"the shift is cast with `{U(cast_)[:50]}` before it is added to `{k}`", construct=f"shift of {k} not narrowed")
             if coef is None:
                 raise AnalysisError(rule, f"{f.qual}: unrecognised write `{U(st)}` in the centring step")
             shifts[k] = shifts.get(k, 0) + coef
